@@ -96,4 +96,59 @@ theorem pyRange_shift (lo hi step k : Int) :
   simp only [Function.comp]
   omega
 
+theorem mul_le_mul_iff_pos (i m : Nat) (step : Int) (hpos : 0 < step) :
+    (i : Int) * step ≤ (m : Int) * step ↔ i ≤ m := by
+  constructor
+  · intro h
+    apply Nat.le_of_not_lt
+    intro hlt
+    have : (m : Int) * step < (i : Int) * step := Int.mul_lt_mul_of_pos_right (by omega) hpos
+    omega
+  · intro h
+    exact Int.mul_le_mul_of_nonneg_right (by omega) (by omega)
+
+theorem sign_pos {x : Int} (h : 0 < x) : sign x = 1 := by simp [sign, h]
+theorem sign_neg {x : Int} (h : x < 0) : sign x = -1 := by
+  have h1 : ¬ x > 0 := by omega
+  have h2 : x ≠ 0 := by omega
+  simp [sign, h1, h2]
+
+theorem pyRangeLen_exact (a step : Int) (m : Nat) (hs : step ≠ 0) :
+    pyRangeLen a (a + (m : Int) * step + sign step) step = m + 1 := by
+  have key : ∀ i : Nat, i < pyRangeLen a (a + (m : Int) * step + sign step) step ↔ i ≤ m := by
+    intro i
+    rcases Int.lt_or_gt_of_ne hs with hneg | hpos
+    · rw [lt_pyRangeLen_neg _ _ _ hneg, sign_neg hneg]
+      have hk := mul_le_mul_iff_pos i m (-step) (by omega)
+      rw [Int.mul_neg, Int.mul_neg] at hk
+      rw [← hk]; omega
+    · rw [lt_pyRangeLen_pos _ _ _ hpos, sign_pos hpos]
+      have hk := mul_le_mul_iff_pos i m step hpos
+      rw [← hk]; omega
+  have h1 := (key m).mpr (Nat.le_refl m)
+  have h2 := mt (key (m + 1)).mp (by omega)
+  omega
+
+/-- when the end is reachable from the start (`end = start + m·step`) the reversed span enumerates the
+same periods in the opposite order -/
+theorem pyRange_reverse (a step : Int) (m : Nat) (hs : step ≠ 0) :
+    pyRange (a + (m : Int) * step) (a + sign (-step)) (-step) =
+      (pyRange a (a + (m : Int) * step + sign step) step).reverse := by
+  have hs' : -step ≠ 0 := by omega
+  have hlen := pyRangeLen_exact a step m hs
+  have hlen' : pyRangeLen (a + (m : Int) * step) (a + sign (-step)) (-step) = m + 1 := by
+    have := pyRangeLen_exact (a + (m : Int) * step) (-step) m hs'
+    have e : a + (m : Int) * step + (m : Int) * (-step) + sign (-step) = a + sign (-step) := by
+      rw [Int.mul_neg]; omega
+    rw [e] at this; exact this
+  apply List.ext_getElem
+  · simp [pyRange_length, hlen, hlen']
+  · intro i h1 h2
+    rw [pyRange_getElem, List.getElem_reverse, pyRange_getElem]
+    simp only [pyRange_length, hlen]
+    have hi : i < m + 1 := by simpa [pyRange_length, hlen'] using h1
+    have e : ((m + 1 - 1 - i : Nat) : Int) = (m : Int) - i := by omega
+    rw [e, Int.mul_neg, Int.sub_mul]
+    omega
+
 end IrisVerif.Dates
